@@ -124,7 +124,15 @@ func (w *fpWalker) walk(v reflect.Value, depth int) {
 		}
 	case reflect.Struct:
 		w.str("struct " + v.Type().String())
+		shim := strings.HasPrefix(v.Type().PkgPath(), "verifshim/")
 		for i := 0; i < v.NumField(); i++ {
+			if shim {
+				// scheduler bookkeeping of the sync shims is not package state: keep the logical fields only
+				switch v.Type().Field(i).Name {
+				case "real", "clock", "waiters", "owner", "running":
+					continue
+				}
+			}
 			w.str(v.Type().Field(i).Name)
 			w.walk(v.Field(i), depth+1)
 		}
@@ -179,11 +187,43 @@ func fingerprint() (full, rest string, per map[string]string) {
 	per = map[string]string{}
 	for _, n := range names {
 		v := reflect.ValueOf(vars[n]).Elem()
-		var buf bytes.Buffer
-		w := &fpWalker{&buf, map[uintptr]int{}}
-		w.str(n)
-		w.walk(v, 0)
-		d := sha256.Sum256(buf.Bytes())
+		var d [32]byte
+		switch p := vars[n].(type) {
+		case *[]string:
+			// fast path (word lists): same canonical content, no reflection
+			h := sha256.New()
+			fmt.Fprintf(h, "%s;[]string;%d;%v;", n, len(*p), *p == nil)
+			var lb [10]byte
+			for _, x := range *p {
+				h.Write(strconv.AppendInt(lb[:0], int64(len(x)), 10))
+				h.Write([]byte{':'})
+				io.WriteString(h, x)
+			}
+			h.Sum(d[:0])
+		case *map[string]int64:
+			h := sha256.New()
+			fmt.Fprintf(h, "%s;map[string]int64;%d;%v;", n, len(*p), *p == nil)
+			keys := make([]string, 0, len(*p))
+			for k := range *p {
+				keys = append(keys, k)
+			}
+			sort.Strings(keys)
+			var lb [24]byte
+			for _, k := range keys {
+				h.Write(strconv.AppendInt(lb[:0], int64(len(k)), 10))
+				h.Write([]byte{':'})
+				io.WriteString(h, k)
+				h.Write(strconv.AppendInt(lb[:0], (*p)[k], 10))
+				h.Write([]byte{';'})
+			}
+			h.Sum(d[:0])
+		default:
+			var buf bytes.Buffer
+			w := &fpWalker{&buf, map[uintptr]int{}}
+			w.str(n)
+			w.walk(v, 0)
+			d = sha256.Sum256(buf.Bytes())
+		}
 		per[n] = hex.EncodeToString(d[:6])
 		if fpExclude[n] {
 			continue
@@ -306,6 +346,11 @@ func (r *histRunner) exec(op string) (outcome string) {
 			s, err := bip39.NewMnemonicByEntropy(e, lg)
 			r.keepString("mnemonic returned by "+op, s)
 			outcome = s + "|" + errString(err)
+		case "GL":
+			// 32-byte entropy (a different size than GE, for cross-size interference)
+			e := bytes.Repeat([]byte{byte(0x17 + 3*ml)}, 32)
+			s, err := bip39.NewMnemonicByEntropy(e, lg)
+			outcome = s + "|" + errString(err)
 		case "GB":
 			e := make([]byte, 17)
 			r.keepBytes("entropy passed to "+op, e)
@@ -369,14 +414,14 @@ type histStep struct {
 
 type histOut struct {
 	InitialPer    map[string]string `json:"initial_per"`
-	Initial       string     `json:"initial"`
-	InitialRest   string     `json:"initial_rest"`
-	Steps         []histStep `json:"steps"`
-	Lazy          string     `json:"lazy"`
-	Intact        string     `json:"intact"` // "" = all retained buffers unchanged
-	SourceDefault bool       `json:"source_default"`
-	SourceType    string     `json:"source_type"`
-	SourceAtStart bool       `json:"source_default_at_start"`
+	Initial       string            `json:"initial"`
+	InitialRest   string            `json:"initial_rest"`
+	Steps         []histStep        `json:"steps"`
+	Lazy          string            `json:"lazy"`
+	Intact        string            `json:"intact"` // "" = all retained buffers unchanged
+	SourceDefault bool              `json:"source_default"`
+	SourceType    string            `json:"source_type"`
+	SourceAtStart bool              `json:"source_default_at_start"`
 }
 
 func sourceIsDefault() (bool, string) {
@@ -399,7 +444,11 @@ func histMain(args []string) int {
 	if v := os.Getenv("VERIF_DIR"); v != "" {
 		verif = v
 	}
-	m, err := ref.Load(verif + "/golden")
+	arg0 := ""
+	if len(args) > 0 {
+		arg0 = args[0]
+	}
+	m, err := ref.LoadLangs(verif+"/golden", langsOfOps(arg0))
 	if err != nil {
 		fmt.Fprintln(os.Stderr, err)
 		return 2
@@ -444,4 +493,24 @@ func histMain(args []string) int {
 	data, _ := json.Marshal(&out)
 	os.Stdout.Write(data)
 	return 0
+}
+
+// langsOfOps returns the reference languages whose word material the given
+// operation list needs (operation strings are KIND:langvalue[:arg], separated
+// by ',' and '|').
+func langsOfOps(spec string) map[int]bool {
+	need := map[int]bool{}
+	for _, op := range strings.FieldsFunc(spec, func(r rune) bool { return r == ',' || r == '|' }) {
+		parts := strings.Split(op, ":")
+		v := 0
+		if len(parts) > 1 {
+			v, _ = strconv.Atoi(parts[1])
+		}
+		ml := material(v)
+		need[ml] = true
+		if parts[0] == "CF" {
+			need[(ml+1)%ref.NLang] = true
+		}
+	}
+	return need
 }
